@@ -182,7 +182,9 @@ AuthOutcome(a) ==
   ELSE IF ~Valid(a.sig, gca.key) THEN "badsig"
   ELSE IF a.id \in bans THEN "banned"
   ELSE IF a.id \in DOMAIN equip /\ equip[a.id] = a THEN "same"
-  ELSE IF a.id \notin DOMAIN equip THEN "new"
+  ELSE IF a.id \notin DOMAIN equip
+       THEN (IF a.key \in DOMAIN pkidx /\ "dupkey" \notin Defects
+             THEN "keyused" ELSE "new")
   ELSE "conflict"
 
 (* which index entry a ban removes: the banned device's own key (repaired) *)
@@ -194,6 +196,8 @@ ApplyAuth(st, a) ==
   \* st = [equip, pkidx, bans, live, impact]; the load rule of loadEquipment
   IF a.id \in st.bans THEN st
   ELSE IF a.id \in DOMAIN st.equip /\ st.equip[a.id] = a THEN st
+  ELSE IF a.id \notin DOMAIN st.equip /\ a.key \in DOMAIN st.pkidx
+          /\ "dupkey" \notin Defects THEN st
   ELSE IF a.id \notin DOMAIN st.equip
   THEN [st EXCEPT !.equip  = Put(@, a.id, a),
                   !.pkidx  = Put(@, a.key, a.id),
@@ -501,6 +505,15 @@ BansMonotone == [][bans \subseteq bans']_vars
 NoAuthBeforeRegister == ~gca.avail => equip = EmptyFn /\ disk.auths = <<>>
 KeyNeverChanges == [][gca.avail /\ Running /\ up' # "down" => gca' = gca]_vars
 EquipOnlySigned == \A id \in DOMAIN equip : Valid(equip[id].sig, gca.key)
+
+(* Model checking aid: the report file grows by one copy of every distinct  *)
+(* live report at each restart; duplicates do not influence any later load, *)
+(* so views compare the file up to repetition.                              *)
+RECURSIVE Dedup(_, _)
+Dedup(s, acc) == IF s = <<>> THEN acc
+                 ELSE IF \E i \in 1..Len(acc) : acc[i] = Head(s) THEN Dedup(Tail(s), acc)
+                 ELSE Dedup(Tail(s), Append(acc, Head(s)))
+DiskView == [disk EXCEPT !.reports = Dedup(@, <<>>)]
 
 (* C04: what a restart would produce, compared with memory after catch-up  *)
 PersistedView ==
